@@ -209,7 +209,7 @@ func c15Run(c *Case) []any {
 		Alone []any  `json:"alone"`
 		// Verdicts[v] = ok / reject / other for variant v run alone; conc entries are "v<k>=<result>"
 		Verdicts []any `json:"verdicts"`
-		Conc  []any  `json:"conc"`
+		Conc     []any `json:"conc"`
 	}
 	runs := make([]*run, len(tc.Ops))
 	norm := func(v string, idx int) string {
